@@ -10,6 +10,7 @@ import numpy as np
 from .. import monitor
 from ..common import rng_for
 
+OPTIMIZED_SHARDS = 1  # shards run once more in an interpreter started with -O (vf/run.py)
 LEVEL = "exploration"
 TECHNIQUE = "runtime monitors on Preemphasize.apply / Dither.apply: explicit-recurrence oracle, write sanitizer (read-only inputs + digests), seeded statistical identities"
 RULE = (
